@@ -40,6 +40,15 @@ class Check:
         if floor is not None:
             self.floors[rid] = floor
 
+    def _inlining_summary(self):
+        inl = getattr(self.F, "_inliner", None)
+        if inl is None:
+            return {"views_with_spliced_helpers": 0}
+        hs = sorted({h for v in inl.inlined.values() for h in v})
+        return {"views_with_spliced_helpers": len(inl.inlined), "distinct_helpers_spliced": len(hs),
+                "rule": "calls to remoc functions not named by any rule are spliced into the analysed body (rules/inline.py)",
+                "sample": [{"body": k[1], "helpers": v[:6]} for k, v in sorted(inl.inlined.items())[:8]]}
+
     def ok(self, site, msg, loc=None, nontrivial=True):
         self.obligations.append({"rule": self.cur_rule, "site": site, "ok": True, "msg": msg, "loc": loc})
         if nontrivial:
@@ -144,7 +153,8 @@ class Check:
                 "rules": [{"id": r, "text": d, "breaks_by": self.rule_breaks.get(r),
                            "instances": len(per_rule.get(r, [])), "floor": self.floors.get(r)}
                           for r, d in self.rule_desc.items()],
-                "analysed": dict(self.F.stats, feature_configs=self.configs),
+                "analysed": dict(self.F.stats, feature_configs=self.configs,
+                                 helper_inlining=self._inlining_summary()),
                 "inconclusive_sites": self.inconclusives[:20],
                 "known_findings_matched": known_hit,
                 "not_decided": list(not_decided),
